@@ -87,6 +87,13 @@ class ContractMixin:
                     if not z3.is_false(smt.simp(is_ref(bt))):
                         mods['cells'].append((r_of(bt), a.attr))
                         mods['guards'][r_of(bt).get_id()] = smt.simp(is_ref(bt))
+                elif isinstance(a, ast.Call) and isinstance(a.func, ast.Name) and a.func.id == 'attr' and len(a.args) == 2 \
+                        and isinstance(a.args[1], ast.Constant):
+                    base = self.sev(st, a.args[0], env, c.module)
+                    bt = self.to_term(st, base)
+                    if not z3.is_false(smt.simp(is_ref(bt))):
+                        mods['cells'].append((r_of(bt), a.args[1].value))
+                        mods['guards'][r_of(bt).get_id()] = smt.simp(is_ref(bt))
                 elif isinstance(a, ast.Call) and isinstance(a.func, ast.Name) and a.func.id == 'fields':
                     base = self.sev(st, a.args[0], env, c.module)
                     bt = self.to_term(st, base)
